@@ -223,9 +223,11 @@ vector<string> AbstractParameterAliasable::getAlias(const string& name) const
     {
       string alias = it.second->getAlias();
       aliases.push_back(alias);
-      if (alias != name)
+      // The listeners store their source without the namespace, the aliased name with it.
+      string aliasName = getParameterNameWithoutNamespace(alias);
+      if (aliasName != name)
       {
-        vector<string> chainAliases = getAlias(alias);
+        vector<string> chainAliases = getAlias(aliasName);
         VectorTools::append(aliases, chainAliases);
       }
     }
